@@ -20,7 +20,7 @@ KNOWN = os.path.join(env.VERIF, "known_findings.txt")
 
 TIERS = {
     # runs per check, shrink budget per violation (s), wall cap for the batch (s)
-    "quick": {"C15": 1280, "C16": 1280, "C18": 1600, "shrink_s": 60, "cap_s": 420},
+    "quick": {"C15": 1280, "C16": 1280, "C18": 960, "shrink_s": 60, "cap_s": 420},
     "thorough": {"C15": 48000, "C16": 32000, "C18": 40000, "shrink_s": 240, "cap_s": 3000},
 }
 
@@ -32,6 +32,29 @@ COMPONENTS = {
              "file's bytes)", "which client thread runs next (seeded scheduler)",
              "allocation failures / cancellation (exceptions raised from the line tracer)"],
 }
+
+
+def library_line_sites():
+    """Number of distinct (file, line) sites in the code objects of the
+    library modules the simulator loads (denominator of site coverage)."""
+    import sys as _sys
+    env.lib()
+    n = 0
+    for name, m in sorted(_sys.modules.items()):
+        f = getattr(m, "__file__", None) if m is not None else None
+        if not name.startswith("pytorch_wavelets") or not f or not f.endswith(".py"):
+            continue
+        with open(f, "rb") as fh:
+            co = compile(fh.read(), f, "exec", dont_inherit=True)
+        lines = set()
+        stack = [co]
+        while stack:
+            c = stack.pop()
+            if c.co_name != "<module>":
+                lines.update(ln for _, _, ln in c.co_lines() if ln)
+            stack.extend(k for k in c.co_consts if hasattr(k, "co_lines"))
+        n += len(lines)
+    return n
 
 
 def jobs_default():
@@ -79,6 +102,87 @@ def worker(argv):
     with open(outfile, "w") as f:
         json.dump(agg, f)
     return 0
+
+
+def worker_sweep(argv):
+    """worker_sweep TIER START STRIDE DEADLINE OUTFILE"""
+    import faulthandler
+    from . import gen, world
+    tier, start, stride, deadline, outfile = argv
+    start, stride, deadline = int(start), int(stride), float(deadline)
+    plans = gen.sweep_plans(tier)
+    res = {"total": len(plans), "done": 0, "by_kind": {}, "outcome": {}, "violations": [],
+           "harness_errors": [], "fired": 0, "stopped_early": False, "samples": []}
+    for i in range(start, len(plans), stride):
+        if time.time() > deadline:
+            res["stopped_early"] = True
+            break
+        plan = plans[i]
+        faulthandler.dump_traceback_later(120, exit=True)
+        try:
+            r = world.run_plan(plan)
+        except Exception as e:  # noqa
+            res["harness_errors"].append({"index": i, "error": "%s: %s" % (type(e).__name__, e)})
+            continue
+        finally:
+            faulthandler.cancel_dump_traceback_later()
+        res["done"] += 1
+        tag = plan["sweep"]
+        res["by_kind"][tag] = res["by_kind"].get(tag, 0) + 1
+        res["fired"] += sum(r["faults_fired"].values())
+        for k, v in r["probes"].items():
+            if k in ("load_failed_under_fault", "load_survived_fault"):
+                key = tag + ":" + k
+                res["outcome"][key] = res["outcome"].get(key, 0) + v
+        if r["violations"]:
+            if len(res["violations"]) < 20:
+                res["violations"].append({"index": i, "plan": plan, "violations": r["violations"][:3]})
+        if len(res["samples"]) < 1 and i % 1000 == start:
+            res["samples"].append({"fault": plan["faults"][0], "loads": [
+                "%s(%s)" % (o["loader"], o["name"]) for o in plan["programs"][0]]})
+    with open(outfile, "w") as f:
+        json.dump(res, f)
+    return 0
+
+
+def run_sweep(tier, jobs, cap_s):
+    os.makedirs(OUT, exist_ok=True)
+    tmpd = os.path.join(OUT, "tmp-sweep-%d" % os.getpid())
+    os.makedirs(tmpd, exist_ok=True)
+    deadline = time.time() + cap_s
+    procs = []
+    for j in range(jobs):
+        outf = os.path.join(tmpd, "s%d.json" % j)
+        cmd = [sys.executable, "-m", "wavesim.run", "worker_sweep", tier, str(j), str(jobs),
+               repr(deadline), outf]
+        procs.append((subprocess.Popen(cmd, cwd=env.VERIF, env=env.pinned_env(
+            {"WAVESIM_REEXEC": "1"}), stdout=subprocess.PIPE, stderr=subprocess.STDOUT), outf))
+    tot = {"total": 0, "done": 0, "by_kind": {}, "outcome": {}, "violations": [],
+           "harness_errors": [], "fired": 0, "stopped_early": False, "samples": []}
+    errors = []
+    for p, outf in procs:
+        out, _ = p.communicate()
+        if p.returncode != 0 or not os.path.exists(outf):
+            errors.append("sweep worker exit %s: %s" % (p.returncode, (out or b"")[-1000:].decode(
+                "utf8", "replace")))
+            continue
+        with open(outf) as f:
+            a = json.load(f)
+        os.remove(outf)
+        tot["total"] = a["total"]
+        tot["done"] += a["done"]
+        tot["fired"] += a["fired"]
+        _addd(tot["by_kind"], a["by_kind"])
+        _addd(tot["outcome"], a["outcome"])
+        tot["violations"].extend(a["violations"])
+        tot["harness_errors"].extend(a["harness_errors"])
+        tot["stopped_early"] = tot["stopped_early"] or a["stopped_early"]
+        tot["samples"].extend(a["samples"][:1])
+    try:
+        os.rmdir(tmpd)
+    except OSError:
+        pass
+    return tot, errors
 
 
 def new_agg():
@@ -147,7 +251,7 @@ def _calls_per_slot(plan):
     d = {}
     for p in plan["programs"]:
         for o in p:
-            if o["op"] in ("call", "inverse"):
+            if o["op"] in ("call", "inverse", "roundtrip"):
                 d[o["slot"]] = d.get(o["slot"], 0) + 1
     return d
 
@@ -160,6 +264,11 @@ def _brief(o):
         a = o["arg"]
         return "call s%d %s %s %s gm=%s rg=%d -> %s" % (
             o["slot"], a["shape"], a["dtype"], a["layout"], o["grad_mode"],
+            int(o["requires_grad"]), o["out"])
+    if k == "roundtrip":
+        a = o["arg"]
+        return "roundtrip s%d->s%d %s %s %s gm=%s rg=%d -> %s" % (
+            o["slot"], o["slot2"], a["shape"], a["dtype"], a["layout"], o["grad_mode"],
             int(o["requires_grad"]), o["out"])
     if k == "inverse":
         return "inverse s%d src=%s mask=%s perturb=%s -> %s" % (
@@ -257,8 +366,10 @@ def load_known():
 def finding_key(plan, v):
     """Identity of a (minimised) violation: invariant | module family or loader
     | operation kind | construction essentials of the failing operation."""
-    fam = ""
+    fam = v.get("family") or ""
     ess = ""
+    if isinstance(v.get("op_id"), str):      # canaries carry their tag as op id
+        ess = v["op_id"]
     for p in plan["programs"]:
         for o in p:
             if o["id"] == v.get("op_id"):
@@ -305,6 +416,13 @@ def check(argv):
         n, fails_, samples = tables.static_check()
         static = {"obligations": n, "failures": fails_[:20], "samples": samples}
     agg, errors = run_batch(prop, base, total, jobs, cfg["cap_s"], prop)
+    sweep = None
+    if prop == "C18" and not errors:
+        sweep, e2 = run_sweep(tier, jobs, cfg["cap_s"])
+        errors += e2
+        for h in sweep["harness_errors"][:3]:
+            errors.append("sweep plan %s: %s" % (h["index"], h["error"]))
+        static["sweep"] = sweep
     if errors or agg["harness_errors"]:
         for e in errors:
             print("HARNESS-ERROR:", e)
@@ -362,6 +480,27 @@ def check(argv):
                                "message": uv["message"], "seeds_failing": len(seeds)})
         print("VIOLATION property=%s replay=%s" % (prop, path))
         print("  invariant=%s seed=%d key=%s\n  %s" % (sig[1], sd, key, uv["message"]))
+    if sweep and sweep["violations"]:
+        seen = set()
+        for item in sweep["violations"]:
+            v = item["violations"][0]
+            tag = (v["invariant"], item["plan"]["sweep"])
+            if tag in seen:
+                continue
+            seen.add(tag)
+            path = os.path.join(OUT, "replays", "%s-sweep-%s-%s-%d.json" % (
+                prop, v["invariant"], item["plan"]["sweep"], item["index"]))
+            with open(path, "w") as f:
+                json.dump({"replay_version": 1, "property": prop, "invariant": v["invariant"],
+                           "seed": item["plan"]["seed"], "message": v["message"],
+                           "shrink": {"note": "enumerated single-fault plan, already minimal"},
+                           "plan": item["plan"]}, f, indent=1)
+            reported += 1
+            violations_out.append({"invariant": v["invariant"], "replay": path,
+                                   "message": v["message"], "sweep": item["plan"]["sweep"]})
+            print("VIOLATION property=%s replay=%s" % (prop, path))
+            print("  invariant=%s (single-fault enumeration, %s %s)\n  %s" % (
+                v["invariant"], item["plan"]["sweep"], json.dumps(item["plan"]["faults"][0]), v["message"]))
     if static and static["failures"]:
         path = os.path.join(OUT, "replays", "%s-static.json" % prop)
         with open(path, "w") as f:
@@ -427,7 +566,8 @@ def write_evidence(prop, tier, seed, agg, static, violations, wall, errors=False
         "faults_armed": agg["faults_armed"],
         "fault_fire_rate": round(sum(agg["faults_fired"].values()) / armed, 3),
         "fault_free_runs": agg["fault_free_runs"],
-        "fault_site_coverage": {"library_sites_executed": len(agg["sites"]),
+        "fault_site_coverage": {"library_line_sites_total_in_functions": library_line_sites(),
+                                "library_sites_executed": len(agg["sites"]),
                                 "sites_with_a_fault_delivered": len(agg["fault_sites"])},
         "operations": agg["op_kinds"],
         "outcomes": agg["outcomes"],
@@ -447,6 +587,17 @@ def write_evidence(prop, tier, seed, agg, static, violations, wall, errors=False
         cov["static_enumeration"] = {"exhaustive": True, "obligations": static["obligations"],
                                      "failures": len(static["failures"]),
                                      "samples": static["samples"]}
+        sw = static.get("sweep")
+        if sw:
+            cov["single_fault_enumeration"] = {
+                "what": "one fault inside the first load of a table (open error x3; error at "
+                        "every stream call; truncation at byte offsets; inversion of bit 0 and 7 "
+                        "of bytes), then fault-free loads through every entry point + every table",
+                "exhaustive": tier == "thorough" and not sw["stopped_early"],
+                "sampling": "every offset" if tier == "thorough" else "every 41st offset / 7th read index",
+                "plans_enumerated": sw["total"], "plans_run": sw["done"], "faults_fired": sw["fired"],
+                "by_kind": sw["by_kind"], "faulted_load_outcomes": sw["outcome"],
+                "violations": len(sw["violations"]), "samples": sw["samples"][:2]}
     if violations:
         cov["violations_reported"] = violations
     if errors:
@@ -533,6 +684,8 @@ def main(argv):
     cmd = argv[0]
     if cmd == "worker":
         return worker(argv[1:])
+    if cmd == "worker_sweep":
+        return worker_sweep(argv[1:])
     if cmd == "check":
         return check(argv[1:])
     if cmd == "replay":
